@@ -492,6 +492,25 @@ pub fn gen_c09(rng: &mut Rng, thorough: bool) -> Vec<Tagged> {
             out.push((format!("{}-learn-earlystop", tag), Case::Net(spec2, NetCmd::Learn { data: data.clone(), val: Some((val2, rng.range(1, 2) as i32)), batch: 1, epochs: 6 })));
         }
     }
+    // networks WITHOUT a dense layer at the top level (fully convolutional): the flags must be
+    // cleared after learn although no dense layer carries the "training" marker
+    for _ in 0..(if thorough { 60 } else { 10 }) {
+        let input = Sh::Sp(1, rng.range(2, 4), rng.range(2, 4));
+        let depth = rng.range(1, 3);
+        if let Some((mut spec, shapes)) = rand_seq(rng, &o, input, depth, &["conv", "deconv", "conv"], false) {
+            // make sure at least one layer has dropout
+            if let Some(LayerSpec::One(Simple::Conv { dropout, .. })) | Some(LayerSpec::One(Simple::Deconv { dropout, .. })) = spec.layers.first_mut() {
+                *dropout = Some(0.5);
+            }
+            spec.opt = Opt::SGD { lr: 0.05, decay: None };
+            spec.obj = Obj::MSE;
+            let outsh = *shapes.last().unwrap();
+            let data = rand_data(rng, 2, input, outsh, Obj::MSE);
+            out.push(("dropout-no-dense-learn".into(), Case::Net(spec.clone(), NetCmd::Learn { data: data.clone(), val: None, batch: 1, epochs: 2 })));
+            out.push(("dropout-no-dense-learn-twice".into(), Case::Net(spec.clone(), NetCmd::LearnTwice { data: data.clone(), batch: 2, epochs1: 1, epochs2: 1 })));
+            out.push(("dropout-no-dense-predict".into(), Case::Net(spec, NetCmd::Predict(data[0].0.clone()))));
+        }
+    }
     out
 }
 
